@@ -183,12 +183,20 @@ def check(ctx):
                         if pj["k"] == "field" and pj.get("name") == "line_number" and pj.get("adt", "").startswith("tauri_typegen::models::"):
                             reads.append((pj["adt"], st_))
         for adt, st_ in reads:
-            # a plain copy into a *Context.line_number field is harmless as long as no template prints it (checked above)
+            # a plain copy into a *Context field is harmless as long as no template prints that field
+            from c08 import copy_only_targets, camel
             lhs = st_["lhs"]
             lp = lhs.get("p", [])
-            if lp and lp[-1]["k"] == "field" and lp[-1].get("name") == "line_number" and "template_context" in lp[-1].get("adt", ""):
-                r3.ok("%s copies %s.line_number into a context field no template prints" % (short_path(fid), short_path(adt)))
-                continue
+            tg = None
+            if lp and lp[-1]["k"] == "field" and "template_context" in lp[-1].get("adt", ""):
+                tg = {(lp[-1]["adt"], lp[-1]["name"])}
+            elif not lp:
+                tg = copy_only_targets(f, lhs["l"])
+            if tg:
+                mentioned = [n for (_, n) in tg if any(LAYOUT_T.search(i) and (camel(n) in i or n in i) for t in S.templates.values() for i in tera_all_idents(t["ast"]))]
+                if not mentioned:
+                    r3.ok("%s copies %s.line_number into %s, which no template prints" % (short_path(fid), short_path(adt), sorted(n for _, n in tg)))
+                    continue
             if U._reaches_sink_excluding_stdout(fid) or any(is_sink_call(c) for c in f.calls):
                 r3.bad(V(r3.id, fid, "reads:%s.line_number" % short_path(adt),
                          "%s reads %s.line_number and builds output text: generated content depends on source layout" % (fid, adt),
